@@ -207,4 +207,22 @@ def run_extra(pid, ctx):
                                           msg=f"library writes to stdout/stderr: {chain} calls {sorted(set(sum(res.get('sink_calls', {}).values(), [])))}; captured {printed[:80]!r}"))
         else:
             out["inconclusive"].append("a printing call is reachable in the MIR call graph (%s) but the native probe captured no output" % (res.get("chain"),))
+    # shared mutable state reachable from the API?  (same MIR encoding, second query)
+    ev["state_query"] = dict(status=res.get("state_status"), chain=res.get("state_chain"))
+    if res.get("state_status") == "error":
+        out["inconclusive"].append("MIR state query: no verdict from z3")
+    elif res.get("state_status") == "reachable":
+        probe = ctx.native_replay("state_probe", [])
+        bad = [m for m in probe.get("failed", [])] or ([probe.get("message")] if probe.get("outcome") in ("panic", "hang", "crash") else [])
+        ev["state_probe"] = dict(outcome=probe.get("outcome"), failed=bad[:2])
+        chain = " -> ".join(res.get("state_chain") or [])
+        if bad:
+            os.makedirs(os.path.join("/verif/replays", pid), exist_ok=True)
+            path = os.path.join("/verif/replays", pid, "state_probe-%s.json" % hashlib.sha1(chain.encode()).hexdigest()[:10])
+            json.dump(dict(property=pid, harness="state_probe", vals=[], call_chain=res.get("state_chain"), state_calls=res.get("state_calls"),
+                           native=probe), open(path, "w"), indent=1)
+            out["violations"].append(dict(name="state_probe", path=path,
+                                          msg=f"C19: shared mutable state reachable from the API ({chain}) and a call history changes a result: {bad[0]}"))
+        else:
+            out["inconclusive"].append(f"shared mutable state is reachable from the public API in the MIR call graph ({chain}) but the native history probe saw no dependence")
     return out
